@@ -33,8 +33,19 @@ def U(**kw):
     UNITS.append(kw)
 
 
+PARKED = []
+
+
+def PARK(**kw):
+    """units whose harnesses exist but do not finish within the tier budget yet (not registered, not claimed)"""
+    kw.setdefault("kind", "complete")
+    kw.setdefault("tier", "quick")
+    kw.setdefault("stubs", ERR)
+    PARKED.append(kw)
+
+
 def by_id():
-    return {u["id"]: u for u in UNITS}
+    return {u["id"]: u for u in UNITS + PARKED}
 
 
 # ------------------------------------------------------------------------------------------- C02
@@ -116,12 +127,12 @@ U(id="C03.xz.unpadded", props=["C03", "C02"], file="xz/writer.rs", extra_files=[
   harnesses=["c03_xz_prepare_block_start"], contract_stubs=[PAYLOAD_W[0]],
   functions=[("src/xz/writer.rs", "prepare_next_block"), ("src/xz/writer.rs", "write_block_header"), ("src/xz/writer.rs", "encode_lzma2_dict_size")],
   contract="prepare_next_block records the block start before the block header (so unpadded size covers header+data+check, xz-file-format 4.3), writes a 12-byte header for a lone LZMA2 filter, resets the block byte count")
-U(id="C18.xz.step", props=["C18", "C02", "C07"], file="xz/writer.rs", extra_files=["xz/reader.rs", "xz.rs", "enc/lzma2_writer.rs"],
+PARK(id="C18.xz.step", props=["C18", "C02", "C07"], file="xz/writer.rs", extra_files=["xz/reader.rs", "xz.rs", "enc/lzma2_writer.rs"],
   harnesses=["c18_xz_write_step_e1_lim", "c18_xz_write_step_e4_lim", "c18_xz_write_step_e3_unl"], contract_stubs=[PAYLOAD_W[0]],
   functions=[("src/xz/writer.rs", "write", "Write for XZWriter"), ("src/xz/writer.rs", "should_finish_block"), ("src/xz/writer.rs", "finish_current_block"),
              ("src/xz/writer.rs", "prepare_next_block"), ("src/xz/writer.rs", "new", "XZWriter")],
   contract="inductive step: from any in-block state with u<=limit bytes, write(n) for any n<=9000: every block <= max(block_size,dict_size), blocks partition the bytes in order, no empty block, one index record per finished block with its byte count and unpadded size = header+compressed+check")
-U(id="C02.xz.finish", props=["C02", "C03", "C18"], file="xz/writer.rs", extra_files=["xz/reader.rs", "xz.rs", "enc/lzma2_writer.rs"],
+PARK(id="C02.xz.finish", props=["C02", "C03", "C18"], file="xz/writer.rs", extra_files=["xz/reader.rs", "xz.rs", "enc/lzma2_writer.rs"],
   harnesses=['c02_xz_finish_empty', 'c02_xz_finish_n5', 'c02_xz_finish_n4096', 'c02_xz_finish_n4097', 'c02_xz_finish_n8192'], contract_stubs=[PAYLOAD_W[0]], kind="bounded", bound="concrete histories: one write of n in {0,5,4096,4097,8192} bytes then finish; block_size=dict=4096",
   functions=[("src/xz/writer.rs", "finish", "XZWriter"), ("src/xz/writer.rs", "finish_current_block"), ("src/xz/writer.rs", "write_index"), ("src/xz/writer.rs", "write_stream_footer"), ("src/xz/writer.rs", "add_padding"), ("src/xz/writer.rs", "write_block_checksum")],
   contract="stream = header | blocks | index | footer; index (real parser) has one record per opened block (none for empty input) with spec sizes; block payload padded with zeros to 4; backward size locates the index")
@@ -132,7 +143,7 @@ U(id="C04.check", props=["C04", "C02"], file="xz.rs",
   contract="for every data, every split of the updates and every expected field: verify <=> expected equals check_fn(data) byte for byte with the exact field length")
 
 PAYLOAD_LZMA_W = ["payload layer: LZMAWriter::new -> zeroed encoder + real RangeEncoder; LZEncoder::fill_window -> accepts all bytes (ghost count); LZMAEncoder::encode_for_lzma1 -> Ok(()); LZMAWriter::finish -> emits 1..4 bytes (the real LZMAWriter::write loop and size prechecks run on these)"]
-U(id="C02.lzip.split", props=["C02", "C18", "C03", "C07"], file="lzip/writer.rs", extra_files=["lzip.rs", "enc/lzma_writer.rs", "enc/lzma2_writer.rs"],
+PARK(id="C02.lzip.split", props=["C02", "C18", "C03", "C07"], file="lzip/writer.rs", extra_files=["lzip.rs", "enc/lzma_writer.rs", "enc/lzma2_writer.rs"],
   harnesses=["c02_lzip_members_e1", "c02_lzip_members_e4", "c02_lzip_members_unlimited", "c07_lzip_two_writes"],
   contract_stubs=PAYLOAD_LZMA_W,
   functions=[("src/lzip/writer.rs", "write", "Write for LZIPWriter"), ("src/lzip/writer.rs", "new", "LZIPWriter"), ("src/lzip/writer.rs", "start_new_member"),
